@@ -68,6 +68,20 @@ Proof. repeat split; try (cbn; lia); vm_compute; reflexivity. Qed.
 Theorem C13_state_dict_keys_nested (prefix : String.string) (olds keys : list String.string) (k : String.string) :
   In k (rename_filter prefix olds keys) <-> In k keys /\ ~ (exists o, In o olds /\ k = String.append prefix o).
 Proof. exact (rename_filter_spec prefix olds keys k). Qed.
+(* exactly the torch keys: the raw keys of the layer under `prefix` are the renamed names (the torch names, by the pinned naming formula)
+   followed by the sub-modules' own names; no renamed name being a sub-module name, what the model's state_dict keeps is the torch names, in order *)
+Theorem C13_state_dict_is_exactly_the_renamed_keys (prefix : String.string) (olds news : list String.string) :
+  (forall n, In n news -> ~ In n olds) ->
+  rename_filter prefix olds (map (String.append prefix) (news ++ olds)) = map (String.append prefix) news.
+Proof. exact (rename_filter_exact prefix olds news). Qed.
+Module C13_nonvacuous_keys.
+Import String.
+Local Open Scope string_scope.
+Example C13_state_dict_keys_nonvacuous :
+  rename_filter "rnn." ["l0.ih.weight"; "l0.hh.weight"] (map (String.append "rnn.") (["weight_ih_l0"; "weight_hh_l0"] ++ ["l0.ih.weight"; "l0.hh.weight"]))
+  = ["rnn.weight_ih_l0"; "rnn.weight_hh_l0"].
+Proof. vm_compute. reflexivity. Qed.
+End C13_nonvacuous_keys.
 Theorem C13_load_offers_submodule_names (prefix : String.string) (pairs : list (String.string * String.string)) (keys : list String.string) (o n : String.string) :
   incl keys (rename_offer prefix pairs keys) /\
   (In (o, n) pairs -> In (String.append prefix n) keys -> In (String.append prefix o) (rename_offer prefix pairs keys)).
@@ -86,3 +100,4 @@ Print Assumptions C13_sort_unsort_rowwise.
 Print Assumptions C13_state_dict_keys_nested.
 Print Assumptions C13_load_offers_submodule_names.
 Print Assumptions C13_unprefixed_filter_refuted.
+Print Assumptions C13_state_dict_is_exactly_the_renamed_keys.
